@@ -144,14 +144,24 @@ def p_C04(tier, seed):
     # step of the whole alphabet from every well-formed ordered store
     wd = vlib.workdir("C04_tables")
     nt = scope(tier, 6, 8)
-    mc = vlib.run_mc("MCTables", {"N": str(nt)}, ["WFInv", "NoBadOut"], wd, view=None, workers=8, timeout=3000)
+    mc = vlib.run_mc("MCTables", {"N": str(nt)}, ["WFInv", "NoBadOut", "Corresponds"], wd, view=None, workers=8, timeout=3000)
     if mc["violated"]:
         raise ToolError("MCTables: %s violated (see %s)" % (mc["violated"], mc["out"]))
     log("[tables] Store::swap / swap_remove / remove keep heap and qp mutually inverse from all table pairs of <= %d "
         "entries: %d states, %d transitions" % (nt, mc["distinct"], mc["generated"]))
     f.stats["states"] += mc["distinct"]
     f.stats["transitions"] += mc["generated"]
-    f.stats["engines"].append({"engine": "MCTables", "n": nt, "distinct_states": mc["distinct"], "transitions": mc["generated"]})
+    f.stats["engines"].append({"engine": "MCTables", "n": nt, "distinct_states": mc["distinct"], "transitions": mc["generated"],
+                               "invariants": ["WFInv", "NoBadOut", "Corresponds (Store.tla operators = TableLemma.tla functions)"]})
+    if tier == "thorough":
+        # the same lemma for ARBITRARY n: TLAPS proof of TableLemma.tla (swap, swap_remove, remove, append, identity)
+        ob, pr, _ = vlib.run_tlapm("TableLemma", wd)
+        if ob != pr:
+            raise ToolError("TLAPS: %d of %d obligations of TableLemma.tla not proved" % (ob - pr, ob))
+        log("[tlaps] TableLemma.tla: all %d obligations proved: Store::swap / swap_remove / remove / push-append keep heap and qp "
+            "mutually inverse for arbitrary n" % ob)
+        f.stats["engines"].append({"engine": "TLAPS", "module": "TableLemma", "obligations": ob, "discharged": pr,
+                                   "backends": "SMT (Z3), Zenon, Isabelle as selected by tlapm"})
     ni, npr = scope(tier, (4, 2), (5, 2))
     for kind in ("pq", "dpq"):
         wd = vlib.workdir("C04_ind_" + kind)
@@ -360,7 +370,22 @@ def p_C13(tier, seed):
 
 
 # ------------------------------------------------------------------ C14 equality and clones
+def rename(op, ren):
+    """apply an item renaming to a script operation"""
+    o = dict(op)
+    if "k" in o:
+        o["k"] = ren.get(o["k"], o["k"])
+    if "keep" in o:
+        o["keep"] = [ren.get(k, k) for k in o["keep"]]
+    if isinstance(o.get("set"), dict):
+        o["set"] = {ren.get(k, k): v for k, v in o["set"].items()}
+    if "pairs" in o:
+        o["pairs"] = [[ren.get(p[0], p[0]), p[1]] for p in o["pairs"]]
+    return o
+
+
 def p_C14(tier, seed):
+    import random
     n, mp = scope(tier, (3, 1), (4, 1))
 
     def run_kind(kind):
@@ -379,11 +404,21 @@ def p_C14(tier, seed):
         hashers = ["std", "fixed", "collide"]
         for i, r in enumerate(reps):
             probes = []
+            # MCQueue's covering set is reduced by the item-renaming symmetry: the other side of each comparison is
+            # every covering history under EVERY renaming of the items, so that equal contents also meet in different
+            # slot arrangements (and unequal contents differ in one item or one priority)
+            import itertools
+            names = engines.keyset(n)
+            perms = list(itertools.permutations(names))
+            if len(perms) > 6:
+                perms = perms[:1] + random.Random(seed + i).sample(perms[1:], 5)
             for j, o in enumerate(reps):
-                how = [{"op": "new", "q": 2}, {"op": "new", "q": 2, "how": "with_capacity", "cap": 64}][j % 2]
-                build = [how] + [dict(st, q=2) for st in o["steps"]]
-                probes.append(build + [{"op": "eq", "q": 1, "o": 2}, {"op": "ne", "q": 1, "o": 2},
-                                       {"op": "eq", "q": 2, "o": 1}, {"op": "eq", "q": 1, "o": 1}])
+                for pi, perm in enumerate(perms):
+                    ren = dict(zip(names, perm))
+                    how = [{"op": "new", "q": 2}, {"op": "new", "q": 2, "how": "with_capacity", "cap": 64}][(j + pi) % 2]
+                    build = [how] + [rename(dict(st, q=2), ren) for st in o["steps"]]
+                    probes.append(build + [{"op": "eq", "q": 1, "o": 2}, {"op": "ne", "q": 1, "o": 2},
+                                           {"op": "eq", "q": 2, "o": 1}, {"op": "eq", "q": 1, "o": 1}])
             # clones: every state-changing probe on the clone must leave the source untouched (final witness)
             probes += [p for p in mc["probes"] if light(p) and p["op"] not in READS]
             cases.append({"case": [kind, i], "kind": kind, "hasher": hashers[i % 3], "universe": engines.keyset(n),
@@ -428,6 +463,10 @@ def p_C15(tier, seed):
                            {"op": "push", "q": 2, "k": "z", "r": 1}, {"op": pm, "q": 2}, {"op": "contents", "q": 2}])
             probes.append([{"op": "de_tokens", "q": 1, "kind": kind, "pairs": sq, "lenhint": 0}])
             probes.append([{"op": "de_tokens", "q": 1, "kind": kind, "pairs": sq, "lenhint": -1}])
+        # texts that are not a pair sequence at all: an error (or an empty queue) is fine, a panic is not
+        for txt in ("null", "[]", "{}", "[[]]", "[1]", "[[1,2]]", "\"x\"", "[[{\"k\":\"a\",\"pay\":1},{\"r\":1,\"t\":1}],[]]",
+                    "[[{\"k\":\"a\",\"pay\":1},{\"r\":1,\"t\":1},3]]", "[[{\"k\":\"a\",\"pay\":1}]]"):
+            probes.append([{"op": "de", "q": 2, "kind": kind, "pairs": [], "text": txt}])
         for j in range(0, len(probes), 300):
             cases.append({"case": [kind, "de", j], "kind": kind, "hasher": ["std", "fixed"][(j // 300) % 2],
                           "universe": engines.keyset(ni) + ["z"], "steps": [], "probes": probes[j:j + 300], "wit": wit})
@@ -585,7 +624,10 @@ PROPS = {
     "C12": {"run": p_C12, "level": "model_checking",
             # (the stored item written by the bulk operations is C07's business)
             "relevant": lambda fl: (bool(set(fl["tags"]) & {"payload", "get_borrowed"}) and fl["cause_op"] not in BULK)
-            or (fl["cause"].get("b") == 1 and bool(set(fl["tags"]) & {"ret", "contents"}))},
+            or (fl["cause"].get("b") == 1 and bool(set(fl["tags"]) & {"ret", "contents"}))
+            # a *_mut accessor that addresses another element than the one it should: the write lands elsewhere
+            or (fl["op"] in ("peek_mut", "peek_min_mut", "peek_max_mut", "get_mut")
+                and bool(set(fl["tags"]) & {"same_as_peek", "peek_stored", "peek_extreme", "peek_none", "ret"}))},
 }
 
 ASSUMPTIONS = [
